@@ -7,6 +7,6 @@ const ReclHarness::Cfg cfgs[] = {
   CFG("qsbr", rc::QSBR, false, 12), CFG("stamp", rc::STAMP, false, 6),
 };
 ReclHarness h("recl_c", cfgs, sizeof(cfgs) / sizeof(cfgs[0]));
-struct Reg { Reg() { xsim::register_harness(&h); hx::register_reclaimer_probes(); } } reg;
+struct Reg { Reg() { xsim::register_harness(&h); xsim::probe_name(3, "destructor run by the reclaimer unlinked and retired a shared object"); hx::register_reclaimer_probes(); } } reg;
 } // namespace
 XSIM_MAIN()
